@@ -545,6 +545,7 @@ structure WReady (s : WState) : Prop where
   lagging : s.first > 1 ∧ s.next < s.first
   has_snap : ∃ m, s.snap = some m
   idle : s.inProgress = false
+  not_broken : s.broken = false
   retry_soon : ∀ r, s.retryAt = some r → r ≤ s.now + s.cap
 
 /-- one round with a failing push keeps the peer servable -/
@@ -552,17 +553,17 @@ theorem wStep_fail (s : WState) (dt : Nat) (h : WReady s) (hdt : s.cap ≤ dt) (
     (wStep s dt).2 = [.pushFailed] ∧ WReady (wStep s dt).1 ∧
     (wStep s dt).1.failsLeft = s.failsLeft - 1 ∧ (wStep s dt).1.cap = s.cap ∧ (wStep s dt).1.last = s.last ∧
     (wStep s dt).1.first = s.first := by
-  obtain ⟨hl, ⟨m, hm⟩, hi, hr⟩ := h
+  obtain ⟨hl, ⟨m, hm⟩, hi, hb, hr⟩ := h
   have hnb : inBackoff s.retryAt (s.now + dt) = false := by
     unfold inBackoff
     cases hra : s.retryAt with
     | none => rfl
     | some r => have := hr r hra; simp; omega
-  have hstep : wStep s dt = (({ s with now := s.now + dt, failsLeft := s.failsLeft - 1, inProgress := false, failCount := s.failCount + 1, retryAt := some (s.now + dt + pushBackoff s.base s.cap (s.failCount + 1)) } : WState), [WCall.pushFailed]) := by
+  have hstep : wStep s dt = (({ s with now := s.now + dt, hasWorker := true, failsLeft := s.failsLeft - 1, inProgress := false, failCount := s.failCount + 1, retryAt := some (s.now + dt + pushBackoff s.base s.cap (s.failCount + 1)) } : WState), [WCall.pushFailed]) := by
     unfold wStep
-    simp only [hl, and_self, if_true, hm, hnb, hi, hk, Bool.false_eq_true, if_false]
+    simp only [hl, and_self, if_true, hm, hnb, hi, hb, hk, Bool.false_eq_true, if_false]
   rw [hstep]
-  refine ⟨rfl, ⟨hl, ⟨m, hm⟩, rfl, ?_⟩, rfl, rfl, rfl, rfl⟩
+  refine ⟨rfl, ⟨hl, ⟨m, hm⟩, rfl, hb, ?_⟩, rfl, rfl, rfl, rfl⟩
   intro r hr'
   have : r = s.now + dt + pushBackoff s.base s.cap (s.failCount + 1) := by
     have := hr'; simp only [Option.some.injEq] at this; exact this.symm
@@ -574,24 +575,24 @@ theorem wStep_fail (s : WState) (dt : Nat) (h : WReady s) (hdt : s.cap ≤ dt) (
 /-- one round with a succeeding push: the snapshot goes out and next_index restarts at last + 1 -/
 theorem wStep_ok (s : WState) (dt : Nat) (h : WReady s) (hdt : s.cap ≤ dt) (hk : s.failsLeft = 0) :
     (wStep s dt).2 = [.pushOk] ∧ (wStep s dt).1.next = s.last + 1 ∧ (wStep s dt).1.inProgress = false ∧
-    (wStep s dt).1.last = s.last ∧ (wStep s dt).1.first = s.first := by
-  obtain ⟨hl, ⟨m, hm⟩, hi, hr⟩ := h
+    (wStep s dt).1.broken = false ∧ (wStep s dt).1.last = s.last ∧ (wStep s dt).1.first = s.first := by
+  obtain ⟨hl, ⟨m, hm⟩, hi, hb, hr⟩ := h
   have hnb : inBackoff s.retryAt (s.now + dt) = false := by
     unfold inBackoff
     cases hra : s.retryAt with
     | none => rfl
     | some r => have := hr r hra; simp; omega
-  have hstep : wStep s dt = (({ s with now := s.now + dt, inProgress := false, failCount := 0, retryAt := none, next := s.last + 1 } : WState), [WCall.pushOk]) := by
+  have hstep : wStep s dt = (({ s with now := s.now + dt, hasWorker := true, inProgress := false, failCount := 0, retryAt := none, next := s.last + 1 } : WState), [WCall.pushOk]) := by
     unfold wStep
-    simp only [hl, and_self, if_true, hm, hnb, hi, hk, Bool.false_eq_true, if_false, Nat.lt_irrefl]
+    simp only [hl, and_self, if_true, hm, hnb, hi, hb, hk, Bool.false_eq_true, if_false, Nat.lt_irrefl]
   rw [hstep]
-  exact ⟨rfl, rfl, rfl, rfl, rfl⟩
+  exact ⟨rfl, rfl, rfl, hb, rfl, rfl⟩
 
 /-- a peer that is not below the boundary and whose worker is idle gets an AppendEntries -/
 theorem wStep_append (s : WState) (dt : Nat) (hnt : ¬ (s.first > 1 ∧ s.next < s.first))
-    (hi : s.inProgress = false) : (wStep s dt).2 = [.append (s.next - 1)] := by
+    (hi : s.inProgress = false) (hb : s.broken = false) : (wStep s dt).2 = [.append (s.next - 1)] := by
   unfold wStep
-  simp only [hnt, if_false, hi, Bool.false_eq_true]
+  simp only [hnt, if_false, hi, hb, Bool.false_eq_true]
 
 /-- **C33 at the worker level.** A peer below the purge boundary, a snapshot held, the transport failing the
     next `k` pushes (any `k`): heartbeat rounds spaced at least one maximal backoff apart make exactly `k` failed
@@ -599,18 +600,18 @@ theorem wStep_append (s : WState) (dt : Nat) (hnt : ¬ (s.first > 1 ∧ s.next <
     is never stranded by failed pushes. -/
 theorem worker_serves_lagging_peer (k : Nat) : ∀ (s : WState) (dts : List Nat), WReady s → s.failsLeft = k →
     dts.length = k + 2 → (∀ d ∈ dts, s.cap ≤ d) → s.first ≤ s.last + 1 →
-    (wRun s dts).map (·.1) = List.replicate k [.pushFailed] ++ [[.pushOk], [.append s.last]] := by
+    (wRun s (dts.map .hb)).map (·.1) = List.replicate k [.pushFailed] ++ [[.pushOk], [.append s.last]] := by
   induction k with
   | zero =>
     intro s dts h hk hlen hd hfl
     match dts, hlen with
     | [d1, d2], _ =>
-      obtain ⟨c1, n1, i1, l1, f1⟩ := wStep_ok s d1 h (hd d1 (by simp)) hk
-      simp only [wRun, List.map, List.replicate, List.nil_append]
+      obtain ⟨c1, n1, i1, b1, l1, f1⟩ := wStep_ok s d1 h (hd d1 (by simp)) hk
+      simp only [wRun, wApply, List.map, List.replicate, List.nil_append]
       rw [c1]
       -- second round: append at last
       have h2 : (wStep (wStep s d1).1 d2).2 = [.append s.last] := by
-        rw [wStep_append _ d2 (by rw [n1, f1]; omega) i1, n1]
+        rw [wStep_append _ d2 (by rw [n1, f1]; omega) i1 b1, n1]
         simp
       rw [h2]
   | succ k ih =>
@@ -618,13 +619,37 @@ theorem worker_serves_lagging_peer (k : Nat) : ∀ (s : WState) (dts : List Nat)
     match dts, hlen with
     | d :: rest, hlen =>
       obtain ⟨c1, r1, fl1, cap1, l1, f1⟩ := wStep_fail s d h (hd d (by simp)) (by omega)
-      simp only [wRun, List.map, List.replicate_succ, List.cons_append]
+      simp only [wRun, wApply, List.map, List.replicate_succ, List.cons_append]
       rw [c1]
       have := ih (wStep s d).1 rest r1 (by rw [fl1, hk]; rfl) (by simpa using hlen)
         (fun x hx => by rw [cap1]; exact hd x (List.mem_cons_of_mem _ hx)) (by rw [f1, l1]; exact hfl)
       rw [this, l1]
 /-- non-vacuity: two failures, then served -/
-example : (wRun ⟨5, 8, some 4, 100, 400, 0, 2, 2, 0, none, false⟩ [400, 400, 400, 400]).map (·.1)
+example : (wRun ⟨5, 8, some 4, 100, 400, 0, 2, 2, 0, none, false, false, false⟩ [.hb 400, .hb 400, .hb 400, .hb 400]).map (·.1)
     = [[.pushFailed], [.pushFailed], [.pushOk], [.append 8]] := by decide
+
+/-- **After a stream break** (the worker drops the task it pops next and re-opens the stream) the peer — reset
+    to next_index 1 by `PeerStreamError`, hence below the boundary — is served again: with a healthy transport the
+    round after the reconnect round pushes the snapshot and the one after that appends at `last`. -/
+theorem worker_serves_after_stream_break (s : WState) (d1 d2 d3 : Nat)
+    (hf : s.first > 1) (hfl : s.first ≤ s.last + 1) (hsnap : ∃ m, s.snap = some m) (hi : s.inProgress = false)
+    (hr : s.retryAt = none) (hk : s.failsLeft = 0) (hc : s.cap ≤ d2) (hw : s.hasWorker = true)
+    (hnb : s.broken = false) :
+    (wRun s [.brk, .hb d1, .hb d2, .hb d3]).map (·.1) = [[], [], [.pushOk], [.append s.last]] := by
+  obtain ⟨m, hm⟩ := hsnap
+  have h1 : wStep (wBreak s) d1 = (({ s with broken := false, next := 1, now := s.now + d1 } : WState), []) := by
+    unfold wStep wBreak inBackoff
+    have : (1 : Nat) < s.first := hf
+    simp [this, hm, hr, hw, hnb]
+
+  have hready : WReady ({ s with broken := false, next := 1, now := s.now + d1 } : WState) :=
+    ⟨⟨hf, hf⟩, ⟨m, hm⟩, hi, rfl, fun r h => by simp [hr] at h⟩
+  obtain ⟨c2, n2, i2, b2, l2, f2⟩ := wStep_ok _ d2 hready hc hk
+  simp only [wRun, wApply, List.map, h1]
+  rw [c2]
+  have h3 := wStep_append (wStep ({ s with broken := false, next := 1, now := s.now + d1 } : WState) d2).1 d3
+    (by rw [n2, f2]; simp only; omega) i2 b2
+  rw [h3, n2]
+  simp
 
 end DEngine.C33
